@@ -3,6 +3,7 @@ package wire
 import (
 	"bytes"
 	"context"
+	"encoding/binary"
 	"errors"
 	"fmt"
 	"io"
@@ -137,6 +138,38 @@ type BinaryCopyReader struct {
 	typeMap  *pgtype.Map
 	reader   *CopyReader
 	scanners []Scanner
+	// pending holds the bytes of the copy-in stream which have been received
+	// but are not yet consumed. The client is free to split the stream into
+	// CopyData messages at any position, a row is not guaranteed to be
+	// contained within a single message.
+	pending []byte
+	header  bool
+	trailer bool
+}
+
+// next returns the next n bytes of the copy-in stream. Additional CopyData
+// messages are read whenever the pending bytes do not suffice. An io.EOF is
+// only returned if the stream ended (CopyDone) before any of the requested
+// bytes have been received, a stream ending in the middle of the requested
+// bytes results in an io.ErrUnexpectedEOF.
+func (r *BinaryCopyReader) next(n int) ([]byte, error) {
+	for len(r.pending) < n {
+		err := r.reader.Read()
+		if err == io.EOF && len(r.pending) > 0 {
+			return nil, io.ErrUnexpectedEOF
+		}
+
+		if err != nil {
+			return nil, err
+		}
+
+		r.pending = append(r.pending, r.reader.Msg...)
+		r.reader.Msg = r.reader.Msg[len(r.reader.Msg):]
+	}
+
+	value := r.pending[:n:n]
+	r.pending = r.pending[n:]
+	return value, nil
 }
 
 // Read reads a single row from the copy-in stream. The read row is returned as a
@@ -147,36 +180,60 @@ func (r *BinaryCopyReader) Read(ctx context.Context) (_ []any, err error) {
 		return nil, ctx.Err()
 	}
 
-	// NOTE: read the next chunk from the copy-in stream if the current chunk is empty.
-	if len(r.reader.Msg) == 0 {
-		err = r.reader.Read()
+	if r.trailer {
+		return nil, io.EOF
+	}
+
+	// NOTE: the stream starts with a header consisting out of the signature,
+	// a flags field and the length of the header extension area (which is skipped).
+	if !r.header {
+		signature, err := r.next(len(CopySignature))
 		if err != nil {
 			return nil, err
 		}
 
-		has := bytes.HasPrefix(r.reader.Msg, CopySignature)
-		if has {
-			_, err = r.reader.GetBytes(len(CopySignature))
-			if err != nil {
-				return nil, err
-			}
-
-			// NOTE: 2 x 32-bit integer fields are send after the signature which we ignore for now.
-			_, err = r.reader.GetBytes(8)
-			if err != nil {
-				return nil, err
-			}
+		if !bytes.Equal(signature, CopySignature) {
+			return nil, errors.New("unexpected copy-in signature")
 		}
+
+		fixed, err := r.next(8)
+		if err != nil {
+			return nil, unexpectedEOF(err)
+		}
+
+		extension := binary.BigEndian.Uint32(fixed[4:])
+		if extension > math.MaxInt32 {
+			return nil, fmt.Errorf("unexpected header extension length: %d", extension)
+		}
+
+		_, err = r.next(int(extension))
+		if err != nil {
+			return nil, unexpectedEOF(err)
+		}
+
+		r.header = true
 	}
 
-	fields, err := r.reader.GetUint16()
+	// NOTE: a stream that ends in between two rows is complete, the end-of-data
+	// trailer is not send by all clients.
+	count, err := r.next(2)
 	if err != nil {
 		return nil, err
 	}
 
 	// NOTE: the end-of-data trailer consists of a field count holding -1.
+	// Everything up to the CopyDone message is discarded.
+	fields := binary.BigEndian.Uint16(count)
 	if fields == math.MaxUint16 {
-		return nil, io.EOF
+		r.trailer = true
+		r.pending = nil
+
+		for {
+			err = r.reader.Read()
+			if err != nil {
+				return nil, err
+			}
+		}
 	}
 
 	if int(fields) != len(r.scanners) {
@@ -184,21 +241,25 @@ func (r *BinaryCopyReader) Read(ctx context.Context) (_ []any, err error) {
 	}
 
 	row := make([]any, fields)
-	for index := range fields {
-		length, err := r.reader.GetUint32()
+	for index := range row {
+		size, err := r.next(4)
 		if err != nil {
-			return nil, fmt.Errorf("unexpected field length: %w", err)
+			return nil, fmt.Errorf("unexpected field length: %w", unexpectedEOF(err))
 		}
 
 		// NOTE: as a special case, -1 (or 255 255 255 255) indicates a NULL field value.
+		length := binary.BigEndian.Uint32(size)
 		if length == math.MaxUint32 {
-			// r.row[index] = nil
 			continue
 		}
 
-		value, err := r.reader.GetBytes(int(length))
+		if length > math.MaxInt32 {
+			return nil, fmt.Errorf("unexpected field length: %d", int32(length))
+		}
+
+		value, err := r.next(int(length))
 		if err != nil {
-			return nil, fmt.Errorf("unexpected value: %w", err)
+			return nil, fmt.Errorf("unexpected value: %w", unexpectedEOF(err))
 		}
 
 		row[index], err = r.scanners[index](value)
@@ -208,4 +269,14 @@ func (r *BinaryCopyReader) Read(ctx context.Context) (_ []any, err error) {
 	}
 
 	return row, nil
+}
+
+// unexpectedEOF translates an io.EOF, which marks a graceful end of the
+// copy-in stream, into an io.ErrUnexpectedEOF.
+func unexpectedEOF(err error) error {
+	if err == io.EOF {
+		return io.ErrUnexpectedEOF
+	}
+
+	return err
 }
